@@ -248,12 +248,16 @@ class Typer:
         if tb == ():
             return ta
         a_last = ta[-1]
-        b_first = tb[0] if len(tb) == 1 else tb[-2] if what == "matmul-nd" else tb[0]
+        # numpy contracts the last axis of a with the second-to-last axis of b (np.dot and matmul alike; for a matrix
+        # that is its first axis), a stack of matrices keeps its leading axes
+        b_first = tb[0] if len(tb) == 1 else tb[-2]
         ok = compat_contract(a_last, b_first)
         if ok is False:
             self.problems.append(Mismatch(node, f"{what} contracts {show((a_last,))} of {show(ta)} with {show((b_first,))} of {show(tb)}"))
             return None
         self.n_typed += 1
+        if len(tb) > 2:
+            return tuple(ta[:-1]) + tuple(tb[:-2]) + tuple(tb[-1:])
         return tuple(ta[:-1]) + tuple(tb[1:])
 
     def expr(self, e):
